@@ -115,6 +115,10 @@ def run(ctx, rep):
     rep.check(ok, "T3", "C08|T3|callback", cfg.where(cc), "check_containers = walk_types(ast, |t| check_container(t, diagnostics)) and nothing else")
     import common_g
     rep.floor("IN", "grammar actions feeding this rule", common_g.emit_inputs(ctx, rep, "C08"), 5)
+    import loopstate
+    loopstate.rule(ctx, rep, "C08", ['validation::check_containers', 'validation::check_container'])
+    import pipeline
+    pipeline.rule(ctx, rep, "C08", ['resolve_types', 'check_containers'])
     rep.assumptions += ["TB-1 rustc MIR", "TB-4 tabulator", "a String-kind node has name \"String\" (grammar wiring rule, C02)",
                         "arity of generic_types per kind is the constructor invariant proved under C01 (D4)",
                         "std iterators (slice::Iter, for_each) visit every element once, in order"]
